@@ -26,6 +26,14 @@
 #define F_DRAIN 256 /* prelude drains the caller's stack+descriptor pools to their last element */
 #define F_EXT 512   /* the call is made by an external pthread (not an execution stream) */
 #define F_DML (F_SMALL | F_DRAIN | F_MALLOCLP) /* drained pools, page allocation has no fallback */
+#define F_UMAP 1024 /* the call creates a unit of a user-defined pool: the user callback's own allocation and the
+                     * runtime's unit-map allocation must both be among the enumerated acquisitions */
+
+/* parameters of a generated scenario (see gen_scens): every configuration dimension that selects a
+ * different branch of a creation / association ladder */
+typedef struct par {
+    short fam, api, attr, pool, src, sk, tgt, mem;
+} par;
 
 typedef struct scen {
     const char *name;
@@ -35,6 +43,7 @@ typedef struct scen {
     void *nullh;         /* documented NULL handle of out[0] */
     void (*fin)(void);   /* after a successful call: use the result, then free it */
     const char *routine; /* translated routine whose callee sequence is compared (trace mode) */
+    par p;               /* generated scenarios only */
 } scen;
 
 /* ------------------------------------------------------------------ report */
@@ -162,9 +171,48 @@ static int is_pool_page(void *mem)
     return g && (mp_is_page(&g->mem_pool_stack, mem) || mp_is_page(&g->mem_pool_desc, mem));
 }
 
+/* ------------------------------------------------------------------ unit -> work-unit map (white box)
+ * mirrors the private `unit_to_thread` of src/unit.c: entries are allocated on demand, emptied (unit = NULL) by
+ * unmap and kept in their bucket for re-use until ABT_finalize.  An EMPTY (ABT_UNIT_NULL) entry left by a failed call is a cached
+ * block (like a memory-pool page), a NON-EMPTY one that was not there before is a dangling mapping. */
+typedef struct u2t { ABTD_atomic_ptr unit; ABTI_thread *p_thread; struct u2t *p_next; } u2t;
+static int map_entry_state(void *blk) /* 0: not a map entry, 1: empty entry, 2: entry in use */
+{
+    ABTI_global *g = ABTI_global_get_global_or_null();
+    if (!g)
+        return 0;
+    for (size_t i = 0; i < ABTI_UNIT_HASH_TABLE_SIZE; i++)
+        for (u2t *e = (u2t *)ABTD_atomic_acquire_load_ptr(&g->unit_to_thread_entires[i].list.val); e; e = e->p_next)
+            if ((void *)e == blk)
+                return (ABT_unit)ABTD_atomic_acquire_load_ptr(&e->unit) != ABT_UNIT_NULL ? 2 : 1;
+    return 0;
+}
+static void map_count(long *used, long *total)
+{
+    ABTI_global *g = ABTI_global_get_global_or_null();
+    *used = *total = 0;
+    if (!g)
+        return;
+    for (size_t i = 0; i < ABTI_UNIT_HASH_TABLE_SIZE; i++)
+        for (u2t *e = (u2t *)ABTD_atomic_acquire_load_ptr(&g->unit_to_thread_entires[i].list.val); e; e = e->p_next) {
+            (*total)++;
+            if ((ABT_unit)ABTD_atomic_acquire_load_ptr(&e->unit) != ABT_UNIT_NULL)
+                (*used)++;
+        }
+}
+
 /* ------------------------------------------------------------------ user-defined pool / scheduler */
-typedef struct unode { ABT_thread th; struct unode *next; } unode;
+/* Two user-defined pool implementations:
+ *  - "ud" (ABT_pool_user_def): a unit is a never-reused cell of a static slab plus one malloc'ed payload.  The
+ *    malloc is the user callback's own (injectable) allocation; a never-reused handle lands in a hash bucket of the
+ *    runtime's unit->thread map that has no free entry, so the runtime's map allocation is reached every time.
+ *  - "lg" (legacy ABT_pool_def): a unit is a malloc'ed node, so handles are re-used and the map's "reuse a free
+ *    entry" branch is taken as well. */
+typedef struct unode { ABT_thread th; struct unode *next; void *payload; long serial; } unode;
 typedef struct uq { unode *head, *tail; volatile int lk; long n; } uq;
+#define NSLAB 8192
+static unode slab[NSLAB] __attribute__((aligned(64)));
+static int slab_next;
 static void uq_lock(uq *q) { while (__atomic_test_and_set(&q->lk, __ATOMIC_ACQUIRE)) ; }
 static void uq_unlock(uq *q) { __atomic_clear(&q->lk, __ATOMIC_RELEASE); }
 static uq *uq_of(ABT_pool p)
@@ -176,14 +224,28 @@ static uq *uq_of(ABT_pool p)
 static ABT_unit up_create_unit(ABT_pool p, ABT_thread t)
 {
     (void)p;
-    unode *n = (unode *)malloc(sizeof *n); /* user allocation: an injectable site too */
-    if (!n)
+    void *pl = malloc(24); /* user allocation: an injectable site too */
+    if (!pl)
         return ABT_UNIT_NULL;
+    int i = __atomic_fetch_add(&slab_next, 1, __ATOMIC_SEQ_CST);
+    if (i >= NSLAB) {
+        free(pl);
+        return ABT_UNIT_NULL;
+    }
+    unode *n = &slab[i];
     n->th = t;
     n->next = NULL;
+    n->payload = pl;
+    n->serial = i;
     return (ABT_unit)n;
 }
-static void up_free_unit(ABT_pool p, ABT_unit u) { (void)p; free((void *)u); }
+static void up_free_unit(ABT_pool p, ABT_unit u)
+{
+    (void)p;
+    unode *n = (unode *)u;
+    free(n->payload);
+    n->payload = NULL;
+}
 static ABT_bool up_is_empty(ABT_pool p) { uq *q = uq_of(p); return q->n == 0 ? ABT_TRUE : ABT_FALSE; }
 static ABT_thread up_pop(ABT_pool p, ABT_pool_context c)
 {
@@ -217,6 +279,11 @@ static void up_push(ABT_pool p, ABT_unit u, ABT_pool_context c)
     q->n++;
     uq_unlock(q);
 }
+static void up_push_many(ABT_pool p, const ABT_unit *us, size_t n, ABT_pool_context c)
+{
+    for (size_t i = 0; i < n; i++)
+        up_push(p, us[i], c);
+}
 static int up_init(ABT_pool p, ABT_pool_config c)
 {
     (void)c;
@@ -235,7 +302,50 @@ static ABT_pool_user_def mk_userdef(void)
     OK(ABT_pool_user_def_set_init(d, up_init));
     OK(ABT_pool_user_def_set_free(d, up_free));
     OK(ABT_pool_user_def_set_get_size(d, up_get_size));
+    OK(ABT_pool_user_def_set_push_many(d, up_push_many));
     return d;
+}
+/* legacy definition: unit functions get no pool argument, pop returns the unit */
+static ABT_unit lg_create_unit(ABT_thread t)
+{
+    unode *n = (unode *)malloc(sizeof *n); /* user allocation: an injectable site too */
+    if (!n)
+        return ABT_UNIT_NULL;
+    n->th = t;
+    n->next = NULL;
+    n->payload = NULL;
+    return (ABT_unit)n;
+}
+static void lg_free_unit(ABT_unit *u) { free((void *)*u); }
+static void lg_push(ABT_pool p, ABT_unit u) { up_push(p, u, 0); }
+static ABT_unit lg_pop(ABT_pool p)
+{
+    uq *q = uq_of(p);
+    unode *n;
+    uq_lock(q);
+    n = q->head;
+    if (n) {
+        q->head = n->next;
+        if (!q->head)
+            q->tail = NULL;
+        q->n--;
+    }
+    uq_unlock(q);
+    return n ? (ABT_unit)n : ABT_UNIT_NULL;
+}
+static int lg_free_pool(ABT_pool p) { free(uq_of(p)); return ABT_SUCCESS; }
+static ABT_pool_def w_legacy_def;
+static void mk_legacydef(void)
+{
+    memset(&w_legacy_def, 0, sizeof w_legacy_def);
+    w_legacy_def.access = ABT_POOL_ACCESS_MPMC;
+    w_legacy_def.u_create_from_thread = lg_create_unit;
+    w_legacy_def.u_free = lg_free_unit;
+    w_legacy_def.p_init = up_init;
+    w_legacy_def.p_get_size = up_get_size;
+    w_legacy_def.p_push = lg_push;
+    w_legacy_def.p_pop = lg_pop;
+    w_legacy_def.p_free = lg_free_pool;
 }
 
 static int us_init(ABT_sched s, ABT_sched_config c)
@@ -280,8 +390,9 @@ static ABT_sched_def usched_def = { .type = ABT_SCHED_TYPE_ULT, .init = us_init,
                                     .get_migr_pool = NULL };
 
 /* ------------------------------------------------------------------ the non-fresh world */
-static ABT_xstream xs[3];
-static ABT_pool p_main, p_x1, p_x2a, p_x2b, p_user, p_parked;
+#define NXS 3
+static ABT_xstream xs[NXS];
+static ABT_pool p_main, p_x1, p_x2a, p_x2b, p_user, p_user1, p_legacy, p_parked;
 static ABT_pool_user_def w_userdef;
 static ABT_thread t_parked[2], t_blocked, t_done;
 static ABT_task k_parked;
@@ -315,8 +426,14 @@ static void world_build(void)
     OK(ABT_pool_create(w_userdef, ABT_POOL_CONFIG_NULL, &p_user));
     OK(ABT_pool_create_basic(ABT_POOL_FIFO, ABT_POOL_ACCESS_MPMC, ABT_TRUE, &p_x2a));
     OK(ABT_pool_create_basic(ABT_POOL_FIFO_WAIT, ABT_POOL_ACCESS_MPMC, ABT_TRUE, &p_x2b));
-    ABT_pool ps[3] = { p_x2a, p_x2b, p_user };
-    OK(ABT_xstream_create_basic(ABT_SCHED_BASIC, 3, ps, ABT_SCHED_CONFIG_NULL, &xs[2]));
+    /* the target pools of the generated scenarios: one more ABT_pool_user_def pool and one legacy (ABT_pool_def)
+     * pool.  They are the LAST pools of stream 2: a unit that busy-waits in one of them (join of a tasklet) cannot
+     * starve the pools in front of it */
+    mk_legacydef();
+    OK(ABT_pool_create((ABT_pool_user_def)&w_legacy_def, ABT_POOL_CONFIG_NULL, &p_legacy));
+    OK(ABT_pool_create(w_userdef, ABT_POOL_CONFIG_NULL, &p_user1));
+    ABT_pool ps[5] = { p_x2a, p_x2b, p_user, p_user1, p_legacy };
+    OK(ABT_xstream_create_basic(ABT_SCHED_BASIC, 5, ps, ABT_SCHED_CONFIG_NULL, &xs[2]));
     OK(ABT_pool_create_basic(ABT_POOL_FIFO, ABT_POOL_ACCESS_MPMC, ABT_FALSE, &p_parked));
     OK(ABT_key_create(key_dtor, &key1));
     OK(ABT_key_create(NULL, &key2));
@@ -375,6 +492,8 @@ static void world_teardown(void)
     OK(ABT_xstream_free(&xs[1]));
     OK(ABT_xstream_join(xs[2]));
     OK(ABT_xstream_free(&xs[2]));
+    OK(ABT_pool_free(&p_legacy));
+    OK(ABT_pool_free(&p_user1));
     OK(ABT_pool_free(&p_user));
     OK(ABT_pool_user_def_free(&w_userdef));
     OK(ABT_pool_free(&p_parked));
@@ -422,9 +541,33 @@ static size_t snap_thread(char *b, size_t cap, size_t pos, const char *nm, ABT_t
     return pos;
 }
 static ABT_sched s_sched;
-static ABT_pool s_pool;
-static ABT_thread s_thread;
+static ABT_pool s_pool, s_pool2, s_pool3;
+static ABT_thread s_thread, s_thread2;
 static ABT_xstream s_xs;
+static size_t snap_sched(char *b, size_t cap, size_t pos, const char *nm, ABTI_sched *is)
+{
+    /* everything a failed call must leave alone: use mark, pools, scheduler ULT and its association, requests */
+    pos += sn(b, cap, pos, "%s used=%d np=%zu auto=%d req=%x yt=%p repl=%p pools=", nm, (int)is->used, is->num_pools,
+              (int)is->automatic, (unsigned)ABTD_atomic_acquire_load_uint32(&is->request), (void *)is->p_ythread,
+              (void *)is->p_replace_sched);
+    for (size_t i = 0; i < is->num_pools && i < 4; i++)
+        pos += sn(b, cap, pos, "%p,", (void *)is->pools[i]);
+    if (is->p_ythread)
+        pos += sn(b, cap, pos, " ytpool=%p ytunit=%p ytst=%d", (void *)is->p_ythread->thread.p_pool,
+                  (void *)is->p_ythread->thread.unit, (int)ABTD_atomic_acquire_load_int(&is->p_ythread->thread.state));
+    pos += sn(b, cap, pos, "\n");
+    return pos;
+}
+static size_t snap_sthread(char *b, size_t cap, size_t pos, const char *nm, ABT_thread t)
+{
+    ABT_thread_state st = 0;
+    ABT_thread_get_state(t, &st);
+    ABTI_thread *it = ABTI_thread_get_ptr(t);
+    pos += sn(b, cap, pos, "%s st=%d pool=%p unit=%p req=%x kt=%d\n", nm, (int)st, (void *)it->p_pool, (void *)it->unit,
+              (unsigned)ABTD_atomic_acquire_load_uint32(&it->request),
+              ABTI_ktable_is_valid((ABTI_ktable *)ABTD_atomic_acquire_load_ptr(&it->p_keytable)));
+    return pos;
+}
 static char snapA[8192], snapB[8192];
 static int snap_skip_main;
 static void snapshot(char *b, size_t cap)
@@ -436,19 +579,19 @@ static void snapshot(char *b, size_t cap)
     pos += sn(b, cap, pos, "nxs=%d gnum=%d\n", n, g->num_xstreams);
     for (ABTI_xstream *x = g->p_xstream_head; x; x = x->p_next)
         pos += sn(b, cap, pos, "list rank=%d p=%p\n", x->rank, (void *)x);
-    for (int i = 0; i < 3; i++) {
+    for (int i = 0; i < NXS; i++) {
         int rank = -1, np = 0;
         ABT_xstream_state st = 0;
         ABT_sched s = ABT_SCHED_NULL;
-        ABT_pool ps[4] = { 0, 0, 0, 0 };
+        ABT_pool ps[5] = { 0, 0, 0, 0, 0 };
         ABT_xstream_get_rank(xs[i], &rank);
         ABT_xstream_get_state(xs[i], &st);
         ABT_xstream_get_main_sched(xs[i], &s);
         ABT_sched_get_num_pools(s, &np);
-        ABT_sched_get_pools(s, np > 4 ? 4 : np, 0, ps);
+        ABT_sched_get_pools(s, np > 5 ? 5 : np, 0, ps);
         ABTI_sched *is = ABTI_sched_get_ptr(s);
-        pos += sn(b, cap, pos, "xs%d rank=%d st=%d sched=%p np=%d pools=%p,%p,%p used=%d auto=%d req=%x yt=%p repl=%p\n", i,
-                  rank, (int)st, (void *)s, np, (void *)ps[0], (void *)ps[1], (void *)ps[2], (int)is->used,
+        pos += sn(b, cap, pos, "xs%d rank=%d st=%d sched=%p np=%d pools=%p,%p,%p,%p,%p used=%d auto=%d req=%x yt=%p repl=%p\n", i,
+                  rank, (int)st, (void *)s, np, (void *)ps[0], (void *)ps[1], (void *)ps[2], (void *)ps[3], (void *)ps[4], (int)is->used,
                   (int)is->automatic, (unsigned)ABTD_atomic_acquire_load_uint32(&is->request), (void *)is->p_ythread,
                   (void *)is->p_replace_sched);
     }
@@ -458,6 +601,8 @@ static void snapshot(char *b, size_t cap)
     pos = snap_pool(b, cap, pos, "x2a", p_x2a);
     pos = snap_pool(b, cap, pos, "x2b", p_x2b);
     pos = snap_pool(b, cap, pos, "user", p_user);
+    pos = snap_pool(b, cap, pos, "legacy", p_legacy);
+    pos = snap_pool(b, cap, pos, "user1", p_user1);
     pos = snap_pool(b, cap, pos, "parked", p_parked);
     pos = snap_thread(b, cap, pos, "parked0", t_parked[0]);
     pos = snap_thread(b, cap, pos, "parked1", t_parked[1]);
@@ -466,23 +611,34 @@ static void snapshot(char *b, size_t cap)
     pos = snap_thread(b, cap, pos, "done", t_done);
     if (s_pool)
         pos = snap_pool(b, cap, pos, "scen", s_pool);
-    if (s_sched) {
-        ABTI_sched *is = ABTI_sched_get_ptr(s_sched);
-        pos += sn(b, cap, pos, "ssched used=%d np=%zu yt=%p auto=%d\n", (int)is->used, is->num_pools, (void *)is->p_ythread,
-                  (int)is->automatic);
-    }
+    if (s_pool2)
+        pos = snap_pool(b, cap, pos, "scen2", s_pool2);
+    if (s_sched)
+        pos = snap_sched(b, cap, pos, "ssched", ABTI_sched_get_ptr(s_sched));
     if (s_xs) {
         ABT_xstream_state st = 0;
         int rank = -1;
         ABT_xstream_get_state(s_xs, &st);
         ABT_xstream_get_rank(s_xs, &rank);
-        pos += sn(b, cap, pos, "sxs st=%d rank=%d\n", (int)st, rank);
+        ABTI_xstream *ix = ABTI_xstream_get_ptr(s_xs);
+        pos += sn(b, cap, pos, "sxs st=%d rank=%d main=%p\n", (int)st, rank, (void *)ix->p_main_sched);
+        if (ix->p_main_sched)
+            pos = snap_sched(b, cap, pos, "sxs.main", ix->p_main_sched);
     }
-    if (s_thread) {
-        ABT_thread_state st = 0;
-        ABT_thread_get_state(s_thread, &st);
-        ABTI_thread *it = ABTI_thread_get_ptr(s_thread);
-        pos += sn(b, cap, pos, "sthread st=%d pool=%p unit=%p\n", (int)st, (void *)it->p_pool, (void *)it->unit);
+    if (s_thread)
+        pos = snap_sthread(b, cap, pos, "sthread", s_thread);
+    if (s_thread2)
+        pos = snap_sthread(b, cap, pos, "sthread2", s_thread2);
+    {   /* the calling work unit itself: its association must survive a failed call too */
+        ABTI_xstream *cx = ABTI_local_get_xstream_or_null(ABTI_local_get_local());
+        if (cx && cx->p_thread)
+            pos += sn(b, cap, pos, "caller pool=%p unit=%p req=%x\n", (void *)cx->p_thread->p_pool, (void *)cx->p_thread->unit,
+                      (unsigned)ABTD_atomic_acquire_load_uint32(&cx->p_thread->request));
+    }
+    {
+        long mu, mt;
+        map_count(&mu, &mt);
+        pos += sn(b, cap, pos, "unitmap used=%ld\n", mu);
     }
     void *v = NULL;
     ABT_key_get(key1, &v);
@@ -550,9 +706,9 @@ static int kt_new(int *pool_descs, void **heap_blocks, int *n_heap)
 static void followup(void)
 {
     phase("followup");
-    ABT_pool ps[5] = { p_main, p_x1, p_x2a, p_x2b, p_user };
+    ABT_pool ps[7] = { p_main, p_x1, p_x2a, p_x2b, p_user, p_legacy, p_user1 };
     long before = ran;
-    for (int i = 0; i < 5; i++) {
+    for (int i = 0; i < 7; i++) {
         ABT_thread t = ABT_THREAD_NULL;
         ABT_task k = ABT_TASK_NULL;
         OK(ABT_thread_create(ps[i], f_inc, NULL, ABT_THREAD_ATTR_NULL, &t));
@@ -562,8 +718,8 @@ static void followup(void)
         if (k != ABT_TASK_NULL)
             OK(ABT_task_free(&k));
     }
-    if (ran - before != 10)
-        problem("followup: %ld of 10 follow-up units ran", ran - before);
+    if (ran - before != 14)
+        problem("followup: %ld of 14 follow-up units ran", ran - before);
     OK(ABT_mutex_lock(w_mutex));
     OK(ABT_mutex_unlock(w_mutex));
     OK(ABT_rwlock_rdlock(w_rw));
@@ -599,7 +755,7 @@ static void fmt_events(void)
                                     e[i].failed == 1 ? "!F" : e[i].failed == 2 ? "!N" : "");
         else
             pos += (size_t)snprintf(evbuf + pos, sizeof evbuf - pos, "%s-%s%s", i ? " " : "", fi_kindname(e[i].op),
-                                    e[i].failed == 3 ? "!BAD" : e[i].rid < 0 ? "!PRE" : "");
+                                    e[i].failed == 3 ? "!BAD" : e[i].failed == 4 ? "!DBL" : e[i].rid < 0 ? "!PRE" : "");
         if (trace_mode)
             pos += (size_t)snprintf(evbuf + pos, sizeof evbuf - pos, "@%d", (int)e[i].depth);
     }
@@ -637,9 +793,14 @@ static void check_ledger_after_failure(void)
     int nkt = kt_new(&kt_pool_descs, hb, &nh);
     if (nkt)
         note("retained-ktable: %d empty key table(s) stay attached to the target unit after the error", nkt);
+    int ncached = 0;
     for (int i = 0; i < n && i < 64; i++) {
         if (l[i]->kind <= FK_MAP && is_pool_page(l[i]->key))
             continue; /* page cached by the memory pool, returned at finalize (checked at exit) */
+        if (l[i]->kind == FK_HEAP && map_entry_state(l[i]->key) == 1) {
+            ncached++; /* emptied unit-map entry: kept for re-use, returned at finalize (checked at exit) */
+            continue;
+        }
         int isk = 0;
         for (int j = 0; j < nh; j++)
             if (hb[j] == l[i]->key)
@@ -652,6 +813,8 @@ static void check_ledger_after_failure(void)
                                 leaks ? "," : "", fi_kindname(l[i]->kind), fi_opname(l[i]->op), l[i]->size, bt);
         leaks++;
     }
+    if (ncached)
+        note("cached-unitmap: %d emptied unit-map entr%s stay in the hash table after the error", ncached, ncached == 1 ? "y" : "ies");
     if (leaks)
         problem("leak: %d resource(s) acquired by the failed call are still allocated", leaks);
     if (fi_pre_released())
@@ -674,6 +837,7 @@ static void body(void *arg)
     kt_snapshot();
     mp_outstanding(&ms0, &md0);
     bad0 = fi_bad_releases();
+    int dbl0 = fi_double_frees();
     phase("call");
     fi_trace_reset();
     fi_arm(K);
@@ -686,8 +850,9 @@ static void body(void *arg)
         fmt_trace();
     fmt_bt(sitebuf, sizeof sitebuf, fi_fail_bt());
     if (fi_bad_releases() != bad0)
-        problem("bad-release: %d release(s) of a resource that is not live (double free / foreign pointer)",
-                fi_bad_releases() - bad0);
+        problem("bad-release: %d release(s) of a resource that is not live (%d of them a second free of a block the "
+                "call had already freed: double free)",
+                fi_bad_releases() - bad0, fi_double_frees() - dbl0);
     if (K > 0 && !r_fired) {
         r_outcome = "not-reached";
     }
@@ -1133,6 +1298,563 @@ static void free_drained(void)
         OK(ABT_task_free(&d_tasks[i]));
 }
 
+/* ------------------------------------------------------------------ generated scenario families
+ * Every fallible creation / association path of the modelled ladders, crossed with every configuration
+ * dimension that selects a different branch of the ladder:
+ *   mk  unit creation          api x thread attribute x target pool kind (x memory regime / caller kind)
+ *   as  re-association         operation x kind of the unit's current pool x kind of the target pool
+ *   ms  main-scheduler change  target stream (caller's / another, joined) x API x scheduler kind x first-pool kind
+ *   ps  ABT_pool_add_sched     pool kind x scheduler kind
+ *   sc  scheduler creation     API / predefined kind x pool list with user-defined pools
+ *   xc  stream creation        API x scheduler kind x first-pool kind
+ * The same generic prep / call / fin functions serve a family; the parameters are in S->p. */
+enum { FAM_MK = 1, FAM_AS, FAM_MS, FAM_PS, FAM_SC, FAM_XC };
+enum { PK_BI = 0, PK_UD, PK_LG, PK_AUTO, PK_N };
+static const char *pk_name[] = { "bi", "ud", "lg", "auto" };
+enum { AT_NULL = 0, AT_DEF, AT_CB, AT_SS, AT_SS_CB, AT_US, AT_US_CB, AT_NOMIG, AT_N };
+static const char *at_name[] = { "null", "def", "cb", "ss", "ss_cb", "us", "us_cb", "nomig" };
+enum { A_TC = 0, A_TCU, A_TCTO, A_TCX, A_TCM, A_KC, A_KCU, A_KCX, A_N };
+static const char *api_name[] = { "tc", "tcu", "tcto", "tcx", "tcm", "kc", "kcu", "kcx" };
+enum { M_NORM = 0, M_KT8, M_DRAIN, M_DML, M_EXT, M_N };
+static const char *m_name[] = { "", ".kt8", ".drained", ".dml", ".ext" };
+static const int m_flags[] = { 0, F_KT8, F_SMALL | F_DRAIN, F_DML, F_EXT };
+enum { O_REVIVE_T = 0, O_REVIVE_K, O_REVIVE_TO, O_PUSH, O_PUSHN, O_SETASSOC, O_POOL_PUSH, O_SELF_SETASSOC, O_SELF_SCHED,
+       O_MIG_YIELD, O_N };
+static const char *o_name[] = { "revive_t", "revive_k", "revive_to", "push", "pushn", "setassoc", "pool_push", "self_setassoc",
+                                "self_sched", "mig_yield" };
+enum { SK_BASIC_AUTO = 0, SK_BASIC_USER, SK_USCHED, SK_USCHED_AUTO, SK_N };
+static const char *sk_name[] = { "basic_auto", "basic_user", "usched", "usched_auto" };
+enum { T_SELF = 0, T_OTHER };
+enum { MS_SET = 0, MS_NULL, MS_BASIC };
+static const char *ms_name[] = { "set", "null", "basic" };
+
+#define P (S->p)
+static ABT_pool g_pool;
+static volatile long ran2;
+static long ran2_0;
+static int s_sched_auto;
+static void f_inc2(void *a) { (void)a; __atomic_fetch_add(&ran2, 1, __ATOMIC_SEQ_CST); }
+static ABT_pool pool_of(int k) { return k == PK_UD ? p_user1 : k == PK_LG ? p_legacy : p_x1; }
+static ABT_pool mk_pool(int k);
+/* ..._create_on_xstream uses the FIRST pool of the stream's main scheduler: a scenario-local stream over one
+ * pool of the wanted kind (the world's stream 1 for a built-in pool) */
+static ABT_xstream x_on;
+static void prep_on_xstream(int k)
+{
+    x_on = xs[1];
+    if (k == PK_BI)
+        return;
+    s_pool = mk_pool(k);
+    OK(ABT_xstream_create_basic(ABT_SCHED_BASIC, 1, &s_pool, ABT_SCHED_CONFIG_NULL, &s_xs));
+    x_on = s_xs;
+}
+static void fin_on_xstream(void)
+{
+    if (x_on == xs[1])
+        return;
+    OK(ABT_xstream_join(s_xs));
+    OK(ABT_xstream_free(&s_xs));
+    OK(ABT_pool_free(&s_pool));
+    s_xs = NULL;
+    s_pool = NULL;
+}
+/* a scenario-local pool that no stream serves */
+static ABT_pool mk_pool(int k)
+{
+    ABT_pool p = ABT_POOL_NULL;
+    if (k == PK_UD)
+        OK(ABT_pool_create(w_userdef, ABT_POOL_CONFIG_NULL, &p));
+    else if (k == PK_LG)
+        OK(ABT_pool_create((ABT_pool_user_def)&w_legacy_def, ABT_POOL_CONFIG_NULL, &p));
+    else
+        OK(ABT_pool_create_basic(ABT_POOL_FIFO, ABT_POOL_ACCESS_MPMC, ABT_FALSE, &p));
+    return p;
+}
+static ABT_sched mk_sched(int sk, int n, ABT_pool *pools)
+{
+    ABT_sched s = ABT_SCHED_NULL;
+    ABT_sched_config c = ABT_SCHED_CONFIG_NULL;
+    if (sk == SK_BASIC_USER)
+        OK(ABT_sched_config_create(&c, ABT_sched_config_automatic, ABT_FALSE, ABT_sched_config_var_end));
+    if (sk == SK_USCHED_AUTO)
+        OK(ABT_sched_config_create(&c, ABT_sched_config_automatic, ABT_TRUE, ABT_sched_config_var_end));
+    if (sk == SK_BASIC_AUTO || sk == SK_BASIC_USER)
+        OK(ABT_sched_create_basic(ABT_SCHED_BASIC, n, pools, c, &s));
+    else
+        OK(ABT_sched_create(&usched_def, n, pools, c, &s));
+    if (c != ABT_SCHED_CONFIG_NULL)
+        OK(ABT_sched_config_free(&c));
+    s_sched_auto = s != ABT_SCHED_NULL && ABTI_sched_get_ptr(s)->automatic == ABT_TRUE;
+    return s;
+}
+static void prep_attr(int a)
+{
+    s_attr = ABT_THREAD_ATTR_NULL;
+    if (a == AT_NULL)
+        return;
+    OK(ABT_thread_attr_create(&s_attr));
+    if (a == AT_CB || a == AT_SS_CB || a == AT_US_CB) {
+        OK(ABT_thread_attr_set_callback(s_attr, mig_cb, NULL));
+        OK(ABT_thread_attr_set_migratable(s_attr, ABT_TRUE));
+    }
+    if (a == AT_SS || a == AT_SS_CB)
+        OK(ABT_thread_attr_set_stacksize(s_attr, 32768));
+    if (a == AT_US || a == AT_US_CB)
+        OK(ABT_thread_attr_set_stack(s_attr, s_stack, sizeof s_stack));
+    if (a == AT_NOMIG)
+        OK(ABT_thread_attr_set_migratable(s_attr, ABT_FALSE));
+}
+static void wait_ran2(void)
+{
+    for (int i = 0; i < 200000 && ran2 < ran2_0 + 1; i++) {
+        if (!(S->flags & F_EXT))
+            ABT_thread_yield();
+        usleep(20);
+    }
+    if (ran2 < ran2_0 + 1)
+        problem("created unnamed unit did not run");
+    usleep(2000);
+}
+
+/* --- mk: unit creation --- */
+static void g_mk_prep(void)
+{
+    prep_attr(P.attr);
+    g_pool = pool_of(P.pool);
+    ran2_0 = ran2;
+    if (P.api == A_TCX || P.api == A_KCX)
+        prep_on_xstream(P.pool);
+}
+static int g_mk_call(void)
+{
+    switch (P.api) {
+        case A_TC: return ABT_thread_create(g_pool, f_inc, NULL, s_attr, TH(0));
+        case A_TCU: return ABT_thread_create(g_pool, f_inc2, NULL, s_attr, NULL);
+        case A_TCTO: return ABT_thread_create_to(g_pool, f_inc, NULL, s_attr, TH(0));
+        case A_TCX: return ABT_thread_create_on_xstream(x_on, f_inc, NULL, s_attr, TH(0));
+        case A_TCM: {
+            ABT_pool pl[3] = { p_x1, p_user1, p_legacy };
+            void (*fl[3])(void *) = { f_inc, f_inc, f_inc };
+            if (P.pool == PK_UD)
+                pl[0] = p_user1, pl[1] = p_legacy, pl[2] = p_x1;
+            if (P.pool == PK_LG)
+                pl[0] = p_legacy, pl[1] = p_x1, pl[2] = p_user1;
+            return ABT_thread_create_many(3, pl, fl, NULL, s_attr, TH(0));
+        }
+        case A_KC: return ABT_task_create(g_pool, f_inc, NULL, (ABT_task *)&out[0]);
+        case A_KCU: return ABT_task_create(g_pool, f_inc2, NULL, NULL);
+        case A_KCX: return ABT_task_create_on_xstream(x_on, f_inc, NULL, (ABT_task *)&out[0]);
+    }
+    return -1;
+}
+static void g_mk_fin(void)
+{
+    switch (P.api) {
+        case A_TCU:
+        case A_KCU: wait_ran2(); break;
+        case A_TCM:
+            OK(ABT_thread_free(TH(0)));
+            OK(ABT_thread_free(TH(1)));
+            OK(ABT_thread_free(TH(2)));
+            break;
+        case A_KC:
+        case A_KCX: OK(ABT_task_free((ABT_task *)&out[0])); break;
+        default: OK(ABT_thread_free(TH(0)));
+    }
+    if (s_attr != ABT_THREAD_ATTR_NULL)
+        OK(ABT_thread_attr_free(&s_attr));
+    if (P.api == A_TCX || P.api == A_KCX)
+        fin_on_xstream();
+}
+
+/* --- as: association of an existing unit with another pool --- */
+static void g_as_prep(void)
+{
+    g_pool = pool_of(P.tgt);
+    switch (P.api) {
+        case O_REVIVE_T:
+        case O_REVIVE_TO:
+            OK(ABT_thread_create(pool_of(P.src), f_inc, NULL, ABT_THREAD_ATTR_NULL, &s_thread));
+            OK(ABT_thread_join(s_thread));
+            break;
+        case O_REVIVE_K:
+            OK(ABT_task_create(pool_of(P.src), f_inc, NULL, &s_thread));
+            OK(ABT_task_join(s_thread));
+            break;
+        case O_PUSHN:
+        case O_PUSH:
+        case O_SETASSOC:
+        case O_POOL_PUSH:
+        case O_SELF_SCHED: {
+            ABT_thread t;
+            s_pool = mk_pool(P.src);
+            OK(ABT_thread_create(s_pool, f_inc, NULL, ABT_THREAD_ATTR_NULL, &s_thread));
+            if (P.api == O_PUSHN)
+                OK(ABT_thread_create(s_pool, f_inc, NULL, ABT_THREAD_ATTR_NULL, &s_thread2));
+            OK(ABT_pool_pop_thread(s_pool, &t));
+            if (P.api == O_PUSHN)
+                OK(ABT_pool_pop_thread(s_pool, &t));
+            break;
+        }
+        case O_MIG_YIELD: {
+            /* the request (and the migration data it needs) is made here; the association happens at the yield */
+            ABT_thread me;
+            OK(ABT_self_get_thread(&me));
+            OK(ABT_thread_migrate_to_pool(me, g_pool));
+            break;
+        }
+    }
+}
+static int g_as_call(void)
+{
+    switch (P.api) {
+        case O_REVIVE_T: return ABT_thread_revive(g_pool, f_inc, NULL, &s_thread);
+        case O_REVIVE_K: return ABT_task_revive(g_pool, f_inc, NULL, &s_thread);
+        case O_REVIVE_TO: return ABT_thread_revive_to(g_pool, f_inc, NULL, &s_thread);
+        case O_PUSH: return ABT_pool_push_thread(g_pool, s_thread);
+        case O_PUSHN: {
+            ABT_thread ts[2] = { s_thread, s_thread2 };
+            return ABT_pool_push_threads(g_pool, ts, 2);
+        }
+        case O_SETASSOC: return ABT_thread_set_associated_pool(s_thread, g_pool);
+        case O_POOL_PUSH: {
+            ABT_unit u = ABT_UNIT_NULL;
+            int r = ABT_thread_get_unit(s_thread, &u);
+            return r != ABT_SUCCESS ? r : ABT_pool_push(g_pool, u);
+        }
+        case O_SELF_SETASSOC: return ABT_self_set_associated_pool(g_pool);
+        case O_SELF_SCHED: return ABT_self_schedule(s_thread, g_pool);
+        case O_MIG_YIELD: {
+            ABT_pool now = ABT_POOL_NULL;
+            ABT_thread_yield();
+            ABT_self_get_last_pool(&now);
+            return now == g_pool ? ABT_SUCCESS : ABT_ERR_MIGRATION_NA;
+        }
+    }
+    return -1;
+}
+static void g_as_fin(void)
+{
+    switch (P.api) {
+        case O_REVIVE_T:
+        case O_REVIVE_K:
+        case O_REVIVE_TO: OK(ABT_thread_free(&s_thread)); break;
+        case O_SETASSOC: OK(ABT_pool_push_thread(g_pool, s_thread)); /* fall through */
+        case O_PUSH:
+        case O_PUSHN:
+        case O_POOL_PUSH:
+        case O_SELF_SCHED:
+            OK(ABT_thread_free(&s_thread));
+            if (s_thread2)
+                OK(ABT_thread_free(&s_thread2));
+            OK(ABT_pool_free(&s_pool));
+            break;
+        case O_SELF_SETASSOC: OK(ABT_self_set_associated_pool(p_main)); break;
+        case O_MIG_YIELD: break;
+    }
+}
+
+/* --- ms: main scheduler of the caller's stream / of another (joined) stream --- */
+static ABT_pool ms_pools[2];
+static int ms_n;
+static void g_ms_prep(void)
+{
+    if (P.tgt == T_OTHER) {
+        OK(ABT_xstream_create(ABT_SCHED_NULL, &s_xs));
+        OK(ABT_xstream_join(s_xs));
+    }
+    s_pool = P.pool == PK_AUTO ? NULL : mk_pool(P.pool);
+    ms_pools[0] = s_pool ? s_pool : ABT_POOL_NULL;
+    ms_pools[1] = p_main; /* the caller's stream must keep serving the world's main pool */
+    ms_n = P.tgt == T_SELF ? 2 : 1;
+    if (P.api == MS_SET)
+        s_sched = mk_sched(P.sk, ms_n, ms_pools);
+}
+static int g_ms_call(void)
+{
+    ABT_xstream x = P.tgt == T_SELF ? xs[0] : s_xs;
+    if (P.api == MS_SET)
+        return ABT_xstream_set_main_sched(x, s_sched);
+    if (P.api == MS_NULL)
+        return ABT_xstream_set_main_sched(x, ABT_SCHED_NULL);
+    return ABT_xstream_set_main_sched_basic(x, ABT_SCHED_BASIC, ms_n, ms_pools);
+}
+static void g_ms_fin(void)
+{
+    long before = ran;
+    if (P.tgt == T_OTHER) {
+        ABT_thread t = ABT_THREAD_NULL;
+        OK(ABT_xstream_revive(s_xs));
+        if (s_pool)
+            OK(ABT_thread_create(s_pool, f_inc, NULL, ABT_THREAD_ATTR_NULL, &t));
+        else
+            OK(ABT_thread_create_on_xstream(s_xs, f_inc, NULL, ABT_THREAD_ATTR_NULL, &t));
+        if (t != ABT_THREAD_NULL)
+            OK(ABT_thread_free(&t));
+        OK(ABT_xstream_join(s_xs));
+        OK(ABT_xstream_free(&s_xs));
+    } else {
+        /* the new scheduler runs the caller; a unit pushed to its first pool must run on this stream */
+        ABT_thread t = ABT_THREAD_NULL;
+        ABT_pool first = ABT_POOL_NULL;
+        ABT_sched cur = ABT_SCHED_NULL;
+        OK(ABT_xstream_get_main_sched(xs[0], &cur));
+        OK(ABT_sched_get_pools(cur, 1, 0, &first));
+        OK(ABT_thread_create(first, f_inc, NULL, ABT_THREAD_ATTR_NULL, &t));
+        if (t != ABT_THREAD_NULL)
+            OK(ABT_thread_free(&t));
+        /* give the primary stream a scheduler on the world's main pool only, so that the scenario's
+         * scheduler and pool can be released */
+        OK(ABT_xstream_set_main_sched_basic(xs[0], ABT_SCHED_BASIC, 1, &p_main));
+    }
+    if (ran != before + 1)
+        problem("use_result: the unit given to the new main scheduler did not run");
+    if (P.api == MS_SET && !s_sched_auto)
+        OK(ABT_sched_free(&s_sched));
+    s_sched = NULL;
+    if (s_pool)
+        OK(ABT_pool_free(&s_pool));
+    s_pool = NULL;
+}
+
+/* --- ps: stacked scheduler --- */
+static void g_ps_prep(void)
+{
+    ABT_pool pl[1] = { ABT_POOL_NULL };
+    g_pool = pool_of(P.pool);
+    s_sched = mk_sched(P.sk, 1, pl);
+}
+static int g_ps_call(void) { return ABT_pool_add_sched(g_pool, s_sched); }
+static void g_ps_fin(void)
+{
+    if (s_sched_auto) {
+        s_sched = NULL; /* frees itself when its (empty) pool has been served */
+        usleep(20000);
+        return;
+    }
+    ABTI_sched *is = ABTI_sched_get_ptr(s_sched);
+    for (int i = 0; i < 100000 && *(volatile ABTI_sched_used *)&is->used != ABTI_SCHED_NOT_USED; i++)
+        usleep(50);
+    OK(ABT_sched_free(&s_sched));
+    s_sched = NULL;
+}
+
+/* --- sc: scheduler creation over user-defined pools --- */
+enum { PL_UD = 0, PL_UD_AUTO, PL_LG_BI, PL_AUTO_UD_LG, PL_N };
+static const char *pl_name[] = { "ud", "ud_auto", "lg_bi", "auto_ud_lg" };
+static int mk_pool_list(int which, ABT_pool *pl)
+{
+    switch (which) {
+        case PL_UD: pl[0] = s_pool; return 1;
+        case PL_UD_AUTO: pl[0] = s_pool; pl[1] = ABT_POOL_NULL; return 2;
+        case PL_LG_BI: pl[0] = s_pool2; pl[1] = s_pool3; return 2;
+        default: pl[0] = ABT_POOL_NULL; pl[1] = s_pool; pl[2] = s_pool2; return 3;
+    }
+}
+static void g_sc_prep(void)
+{
+    s_pool = mk_pool(PK_UD);
+    s_pool2 = mk_pool(PK_LG);
+    s_pool3 = mk_pool(PK_BI);
+}
+static void free_sc_pools(void)
+{
+    OK(ABT_pool_free(&s_pool));
+    OK(ABT_pool_free(&s_pool2));
+    OK(ABT_pool_free(&s_pool3));
+    s_pool = s_pool2 = s_pool3 = NULL;
+}
+static int g_sc_call(void)
+{
+    ABT_pool pl[3];
+    int n = mk_pool_list(P.pool, pl);
+    if (P.api == 0)
+        return ABT_sched_create(&usched_def, n, pl, ABT_SCHED_CONFIG_NULL, (ABT_sched *)&out[0]);
+    static const ABT_sched_predef pre[] = { ABT_SCHED_BASIC, ABT_SCHED_BASIC, ABT_SCHED_BASIC_WAIT, ABT_SCHED_PRIO,
+                                            ABT_SCHED_RANDWS };
+    return ABT_sched_create_basic(pre[P.api], n, pl, ABT_SCHED_CONFIG_NULL, (ABT_sched *)&out[0]);
+}
+static void g_sc_fin(void)
+{
+    OK(ABT_sched_free((ABT_sched *)&out[0]));
+    free_sc_pools();
+}
+
+/* --- xc: stream creation whose scheduler has user-defined pools --- */
+static void g_xc_prep(void)
+{
+    g_sc_prep();
+    s_sched = NULL;
+    if (P.api == 0 || P.api == 2) {
+        ABT_pool pl[3];
+        int n = mk_pool_list(P.pool, pl);
+        s_sched = mk_sched(P.sk, n, pl);
+    }
+}
+static int g_xc_call(void)
+{
+    ABT_pool pl[3];
+    if (P.api == 0)
+        return ABT_xstream_create(s_sched, (ABT_xstream *)&out[0]);
+    if (P.api == 2)
+        return ABT_xstream_create_with_rank(s_sched, 9, (ABT_xstream *)&out[0]);
+    int n = mk_pool_list(P.pool, pl);
+    return ABT_xstream_create_basic(ABT_SCHED_BASIC, n, pl, ABT_SCHED_CONFIG_NULL, (ABT_xstream *)&out[0]);
+}
+static void g_xc_fin(void)
+{
+    ABT_thread t = ABT_THREAD_NULL;
+    ABT_pool first = ABT_POOL_NULL;
+    long before = ran;
+    OK(ABT_xstream_get_main_pools((ABT_xstream)out[0], 1, &first));
+    OK(ABT_thread_create(first, f_inc, NULL, ABT_THREAD_ATTR_NULL, &t));
+    if (t != ABT_THREAD_NULL)
+        OK(ABT_thread_free(&t));
+    if (ran != before + 1)
+        problem("use_result: the unit given to the new stream did not run");
+    OK(ABT_xstream_join((ABT_xstream)out[0]));
+    OK(ABT_xstream_free((ABT_xstream *)&out[0]));
+    if (s_sched && !s_sched_auto)
+        OK(ABT_sched_free(&s_sched));
+    s_sched = NULL;
+    free_sc_pools();
+}
+
+#define MAXDYN 640
+static scen dyn[MAXDYN];
+static char dyn_name[MAXDYN][72];
+static int n_dyn;
+static void add_scen(int flags, par p, void (*prep)(void), int (*call)(void), void *nullh, void (*fin)(void),
+                     const char *routine, const char *fmt, ...)
+{
+    if (n_dyn >= MAXDYN)
+        abort();
+    va_list ap;
+    va_start(ap, fmt);
+    vsnprintf(dyn_name[n_dyn], sizeof dyn_name[0], fmt, ap);
+    va_end(ap);
+    scen *s = &dyn[n_dyn];
+    s->name = dyn_name[n_dyn];
+    s->flags = flags;
+    s->prep = prep;
+    s->call = call;
+    s->nullh = nullh;
+    s->fin = fin;
+    s->routine = routine;
+    s->p = p;
+    n_dyn++;
+}
+static void gen_scens(void)
+{
+    par p;
+    /* mk */
+    for (int api = 0; api < A_N; api++)
+        for (int attr = 0; attr < AT_N; attr++)
+            for (int pool = PK_BI; pool <= PK_LG; pool++)
+                for (int mem = 0; mem < M_N; mem++) {
+                    int task = api >= A_KC;
+                    int cb = attr == AT_CB || attr == AT_SS_CB || attr == AT_US_CB;
+                    if (task && attr != AT_NULL)
+                        continue;
+                    /* which part of the cross product is enumerated (the rest repeats a ladder branch that an
+                     * enumerated combination already selects):  ABT_thread_create is crossed with every attribute;
+                     * the other creators with the attributes that change the ladder (none / migration callback /
+                     * user stack + callback); memory regimes and the external caller with the same three */
+                    int core = attr == AT_NULL || attr == AT_CB || attr == AT_US_CB;
+                    if (api != A_TC && !core && !(api == A_TCU && attr == AT_SS_CB))
+                        continue;
+                    if (mem == M_KT8 && !(cb && (api == A_TC || api == A_TCU)))
+                        continue;
+                    if (mem > M_KT8 && !(core && (api == A_TC || api == A_KC)))
+                        continue;
+                    if ((api == A_TCTO || api == A_TCM || api == A_TCX || api == A_KCX) && attr == AT_US_CB)
+                        continue;
+                    memset(&p, 0, sizeof p);
+                    p.fam = FAM_MK, p.api = (short)api, p.attr = (short)attr, p.pool = (short)pool, p.mem = (short)mem;
+                    int fl = m_flags[mem] | (pool != PK_BI || api == A_TCM ? F_UMAP : 0);
+                    if (api == A_TCU || api == A_KCU)
+                        fl |= F_NOOUT;
+                    if (api == A_TCTO)
+                        fl |= F_INULT;
+                    if (mem == M_NORM && (api == A_TC || api == A_KC) && core)
+                        fl |= F_QUICK;
+                    add_scen(fl, p, g_mk_prep, g_mk_call, task ? (void *)ABT_TASK_NULL : (void *)ABT_THREAD_NULL, g_mk_fin,
+                             api == A_TCM ? NULL : task ? "task_create" : "ythread_create", "mk.%s.%s.%s%s", api_name[api],
+                             at_name[attr], pk_name[pool], m_name[mem]);
+                }
+    /* as */
+    for (int op = 0; op < O_N; op++)
+        for (int src = PK_BI; src <= PK_LG; src++)
+            for (int tgt = PK_BI; tgt <= PK_LG; tgt++) {
+                int self = op == O_SELF_SETASSOC || op == O_MIG_YIELD;
+                if (self && src != PK_BI)
+                    continue; /* the calling ULT lives in the primary stream's built-in pool */
+                if (op == O_PUSHN && tgt == PK_LG)
+                    continue; /* the legacy definition has no push_many: ABT_ERR_POOL before any allocation */
+                memset(&p, 0, sizeof p);
+                p.fam = FAM_AS, p.api = (short)op, p.src = (short)src, p.tgt = (short)tgt;
+                int fl = F_NOOUT | (tgt != PK_BI ? F_UMAP : 0);
+                if (self || op == O_SELF_SCHED || op == O_REVIVE_TO)
+                    fl |= F_INULT;
+                if ((op == O_REVIVE_T || op == O_PUSH) && src == PK_BI)
+                    fl |= F_QUICK;
+                add_scen(fl, p, g_as_prep, g_as_call, NULL, g_as_fin, NULL, "as.%s.%s.%s", o_name[op], pk_name[src],
+                         pk_name[tgt]);
+            }
+    /* ms */
+    for (int tgt = T_SELF; tgt <= T_OTHER; tgt++)
+        for (int api = MS_SET; api <= MS_BASIC; api++)
+            for (int sk = 0; sk < SK_USCHED_AUTO; sk++)
+                for (int pool = PK_BI; pool <= PK_AUTO; pool++) {
+                    if (api != MS_SET && sk != 0)
+                        continue;
+                    if (api == MS_NULL && (pool != PK_AUTO || tgt == T_SELF))
+                        continue; /* on the caller's stream the default scheduler would orphan the world's main pool */
+                    memset(&p, 0, sizeof p);
+                    p.fam = FAM_MS, p.api = (short)api, p.sk = (short)sk, p.pool = (short)pool, p.tgt = (short)tgt;
+                    int fl = F_NOOUT | (tgt == T_SELF ? F_INULT : 0) | (pool == PK_UD || pool == PK_LG ? F_UMAP : 0);
+                    if (sk == SK_BASIC_USER && (pool == PK_UD || pool == PK_AUTO))
+                        fl |= F_QUICK;
+                    add_scen(fl, p, g_ms_prep, g_ms_call, NULL, g_ms_fin, NULL, "ms.%s.%s.%s.%s", tgt == T_SELF ? "self" : "other",
+                             ms_name[api], api == MS_SET ? sk_name[sk] : "-", pk_name[pool]);
+                }
+    /* ps */
+    for (int pool = PK_BI; pool <= PK_LG; pool++)
+        for (int sk = 0; sk < SK_N; sk++) {
+            memset(&p, 0, sizeof p);
+            p.fam = FAM_PS, p.sk = (short)sk, p.pool = (short)pool;
+            add_scen(F_NOOUT | (pool != PK_BI ? F_UMAP : 0) | (sk == SK_BASIC_AUTO ? F_QUICK : 0), p, g_ps_prep, g_ps_call, NULL,
+                     g_ps_fin, "ythread_create", "ps.%s.%s", pk_name[pool], sk_name[sk]);
+        }
+    /* sc */
+    for (int api = 0; api <= 4; api++)
+        for (int pl = 0; pl < PL_N; pl++) {
+            static const char *an[] = { "user", "basic", "basic_wait", "prio", "randws" };
+            if (api == 1 && pl != PL_AUTO_UD_LG)
+                continue; /* ABT_SCHED_BASIC is pre[] 1 */
+            memset(&p, 0, sizeof p);
+            p.fam = FAM_SC, p.api = (short)api, p.pool = (short)pl;
+            add_scen(0, p, g_sc_prep, g_sc_call, ABT_SCHED_NULL, g_sc_fin, api == 0 ? "sched_create" : "ABTI_sched_create_basic",
+                     "sc.%s.%s", an[api], pl_name[pl]);
+        }
+    /* xc */
+    for (int api = 0; api <= 2; api++)
+        for (int sk = 0; sk < SK_USCHED_AUTO; sk++)
+            for (int pl = 0; pl < PL_N; pl++) {
+                static const char *an[] = { "create", "basic", "with_rank" };
+                if (api == 1 && sk != 0)
+                    continue;
+                if (api == 2 && pl != PL_UD)
+                    continue;
+                if (pl == PL_LG_BI && api != 1)
+                    continue;
+                memset(&p, 0, sizeof p);
+                p.fam = FAM_XC, p.api = (short)api, p.sk = (short)sk, p.pool = (short)pl;
+                add_scen(0, p, g_xc_prep, g_xc_call, ABT_XSTREAM_NULL, g_xc_fin, "xstream_create", "xc.%s.%s.%s", an[api],
+                         api == 1 ? "-" : sk_name[sk], pl_name[pl]);
+            }
+}
+
 #define Q F_QUICK
 static const scen scens[] = {
     /* name, flags, prep, call, NULL handle, fin, translated routine */
@@ -1317,9 +2039,12 @@ static void *ext_body(void *a)
 
 int main(int argc, char **argv)
 {
+    gen_scens();
     if (argc >= 2 && strcmp(argv[1], "list") == 0) {
         for (int i = 0; i < n_scens; i++)
             printf("%s %d %s\n", scens[i].name, scens[i].flags, scens[i].routine ? scens[i].routine : "-");
+        for (int i = 0; i < n_dyn; i++)
+            printf("%s %d %s\n", dyn[i].name, dyn[i].flags, dyn[i].routine ? dyn[i].routine : "-");
         return 0;
     }
     if (argc < 3) {
@@ -1329,6 +2054,9 @@ int main(int argc, char **argv)
     for (int i = 0; i < n_scens; i++)
         if (strcmp(scens[i].name, argv[1]) == 0)
             S = &scens[i];
+    for (int i = 0; i < n_dyn; i++)
+        if (strcmp(dyn[i].name, argv[1]) == 0)
+            S = &dyn[i];
     if (!S) {
         fprintf(stderr, "unknown scenario %s\n", argv[1]);
         return 2;
